@@ -613,38 +613,66 @@ func (e *env) setProperty(prop govtypes.NetworkProperty, val uint64) bool {
 		map[string]interface{}{"property": prop.String(), "value": val})
 }
 
-func (e *env) spUpdate(pool string, rateMilli int64, dropRole bool) bool {
+func (e *env) spUpdate(pool string, rateMilli int64, dropRole bool) bool { return e.spUpdateV(pool, rateMilli, dropRole, -1) }
+
+// UpdateSpendingPool: the beneficiary and owner lists of the content in list variant k (-1: random)
+func (e *env) spUpdateV(pool string, rateMilli int64, dropRole bool, k int) bool {
 	p := e.c.App.SpendingKeeper.GetSpendingPool(e.ctx(), pool)
 	if p == nil {
 		return false
 	}
 	ben := *p.Beneficiaries
+	own := *p.Owners
 	if dropRole {
 		ben.Roles = nil
 	}
+	freshAcc := func() (spendingtypes.WeightedAccount, bool) { return spendingtypes.WeightedAccount{Account: e.addr(5), Weight: sdk.NewDec(3)}, true }
+	freshRole := func() (spendingtypes.WeightedRole, bool) { return spendingtypes.WeightedRole{Role: 2, Weight: sdk.OneDec()}, true }
+	freshOwner := func() (string, bool) { return e.addr(5), true }
+	if k < 0 {
+		ben.Accounts = perturbList(e.r, ben.Accounts, freshAcc)
+		ben.Roles = perturbList(e.r, ben.Roles, freshRole)
+		own.OwnerAccounts = perturbList(e.r, own.OwnerAccounts, freshOwner)
+	} else {
+		ben.Accounts = listVariant(ben.Accounts, k, 1, freshAcc)
+		ben.Roles = listVariant(ben.Roles, k, 0, freshRole)
+		own.OwnerAccounts = listVariant(own.OwnerAccounts, k, 0, freshOwner)
+	}
 	rates := sdk.NewDecCoins(sdk.NewDecCoinFromDec("ukex", sdk.NewDecWithPrec(rateMilli, 3)), sdk.NewDecCoinFromDec("xeth", sdk.NewDecWithPrec(rateMilli, 4)))
-	return e.proposal("sp_update", spendingtypes.NewUpdateSpendingPoolProposal(pool, p.ClaimStart, p.ClaimEnd, rates, p.VoteQuorum, p.VotePeriod, p.VoteEnactment, *p.Owners, ben, false, 0),
-		[]string{"BankSend 100 100 0 0"}, map[string]interface{}{"pool": pool, "rate_milli": rateMilli, "drop_role": dropRole})
+	return e.proposal("sp_update", spendingtypes.NewUpdateSpendingPoolProposal(pool, p.ClaimStart, p.ClaimEnd, rates, p.VoteQuorum, p.VotePeriod, p.VoteEnactment, own, ben, false, 0),
+		[]string{"BankSend 100 100 0 0"}, map[string]interface{}{"pool": pool, "rate_milli": rateMilli, "drop_role": dropRole, "list_variant": k,
+			"beneficiary_accounts": len(ben.Accounts), "beneficiary_roles": len(ben.Roles), "owners": len(own.OwnerAccounts)})
 }
 
 func (e *env) collUpdate(pools []collectivestypes.WeightedSpendingPool, claimPeriod uint64) bool {
 	c := e.c.App.CollectivesKeeper.GetCollective(e.ctx(), e.coll)
-	return e.proposal("coll_update", collectivestypes.NewProposalCollectiveUpdate(e.coll, "edited", c.Status, c.DepositWhitelist, c.OwnersWhitelist, pools,
-		c.ClaimStart, claimPeriod, c.ClaimEnd, c.VoteQuorum, c.VotePeriod, c.VoteEnactment), nil, map[string]interface{}{"pools": len(pools), "claim_period": claimPeriod})
+	dw, ow := c.DepositWhitelist, c.OwnersWhitelist
+	dw.Accounts = perturbList(e.r, dw.Accounts, func() (string, bool) { return e.addr(4), true })
+	ow.Accounts = perturbList(e.r, ow.Accounts, func() (string, bool) { return e.addr(4), true })
+	return e.proposal("coll_update", collectivestypes.NewProposalCollectiveUpdate(e.coll, "edited", c.Status, dw, ow, pools,
+		c.ClaimStart, claimPeriod, c.ClaimEnd, c.VoteQuorum, c.VotePeriod, c.VoteEnactment), nil,
+		map[string]interface{}{"collective": e.coll, "pools": len(pools), "claim_period": claimPeriod, "deposit_accounts": len(dw.Accounts), "owner_accounts": len(ow.Accounts)})
 }
 
 // ProposalUpsertDapp carries a whole Dapp value: content drafted from the dApp as it was at `draft` time (the proposer copies
-// what he sees; bonds may move between drafting and enactment)
+// what he sees; bonds may move between drafting and enactment); the controller lists in a list variant
 func (e *env) dappUpsert(draft *l2types.Dapp) bool {
 	if draft == nil {
 		return false
 	}
 	d := *draft
 	d.Description = "edited"
-	return e.proposal("dapp_upsert", &l2types.ProposalUpsertDapp{Dapp: d}, nil, map[string]interface{}{"drafted_total_bond": d.TotalBond.String()})
+	d.Controllers.Whitelist.Addresses = perturbList(e.r, append([]string{e.addr(2)}, d.Controllers.Whitelist.Addresses...), func() (string, bool) { return e.addr(4), true })
+	d.Controllers.Whitelist.Roles = perturbList(e.r, d.Controllers.Whitelist.Roles, func() (uint64, bool) { return 1, true })
+	return e.proposal("dapp_upsert", &l2types.ProposalUpsertDapp{Dapp: d}, nil,
+		map[string]interface{}{"dapp": d.Name, "drafted_total_bond": d.TotalBond.String(), "controllers": len(d.Controllers.Whitelist.Addresses)})
 }
 
-func (e *env) basketEdit(weightUbtc int64, swapFeePct int64) bool {
+func (e *env) basketEdit(weightUbtc int64, swapFeePct int64) bool { return e.basketEditV(weightUbtc, swapFeePct, -1) }
+
+// EditBasket: the token LIST of the content in list variant k (-1: random): an existing denomination repeated, a new one,
+// a new one twice, empty, permuted, one removed
+func (e *env) basketEditV(weightUbtc int64, swapFeePct int64, k int) bool {
 	b, err := e.c.App.BasketKeeper.GetBasketById(e.ctx(), e.bk)
 	if err != nil {
 		return false
@@ -657,10 +685,57 @@ func (e *env) basketEdit(weightUbtc int64, swapFeePct int64) bool {
 		}
 		nb.Tokens[i].Amount = sdk.ZeroInt() // the proposer cannot set reserves
 	}
+	fresh := func() (baskettypes.BasketToken, bool) {
+		return baskettypes.BasketToken{Denom: "frozen", Weight: sdk.OneDec(), Amount: sdk.ZeroInt(), Deposits: true, Withdraws: true, Swaps: true}, true
+	}
+	if k < 0 {
+		nb.Tokens = perturbList(e.r, nb.Tokens, fresh)
+	} else {
+		nb.Tokens = listVariant(nb.Tokens, k, 0, fresh)
+	}
+	// the model expects no coin and no record to move as long as the set of denominations is the same
+	sameSet := len(nb.Tokens) >= len(b.Tokens)
+	var dens []string
+	for _, t := range nb.Tokens {
+		dens = append(dens, t.Denom)
+	}
+	for _, t := range b.Tokens {
+		found := false
+		for _, d := range dens {
+			found = found || d == t.Denom
+		}
+		sameSet = sameSet && found
+	}
+	var model []string
+	if sameSet {
+		model = []string{"BankSend 100 100 0 0"}
+	}
 	nb.SwapFee = sdk.NewDecWithPrec(swapFeePct, 2)
 	nb.Amount = sdk.NewInt(12345)
 	nb.Surplus = nil
-	return e.proposal("basket_edit", baskettypes.NewProposalEditBasket(nb), []string{"BankSend 100 100 0 0"}, map[string]interface{}{"basket": e.bk, "weight_ubtc": weightUbtc, "swap_fee_pct": swapFeePct})
+	return e.proposal("basket_edit", baskettypes.NewProposalEditBasket(nb), model,
+		map[string]interface{}{"basket": e.bk, "weight_ubtc": weightUbtc, "swap_fee_pct": swapFeePct, "list_variant": k, "token_denoms": dens})
+}
+
+// bank MsgMultiSend: one input, a LIST of outputs (repetitions, permutations, empty)
+func (e *env) multiSend(u int, outs []int, den string, amt int64) bool {
+	var outputs []banktypes.Output
+	var model []string
+	total := int64(0)
+	for i, v := range outs {
+		a := amt + int64(i)
+		total += a
+		outputs = append(outputs, banktypes.NewOutput(e.accAddr(v), coins(den, a)))
+		model = append(model, fmt.Sprintf("BankSend %d %d %d %d", 100+u, 100+v, e.denID(den), a))
+	}
+	if model == nil {
+		model = []string{fmt.Sprintf("BankSend %d %d 0 0", 100+u, 100+u)}
+	}
+	in := []banktypes.Input{banktypes.NewInput(e.accAddr(u), coins(den, total))}
+	if total == 0 {
+		in = []banktypes.Input{}
+	}
+	return e.tx("bank_multisend", u, []sdk.Msg{banktypes.NewMsgMultiSend(in, outputs)}, model, map[string]interface{}{"from": u, "to": outs, "denom": den, "amount_first": amt})
 }
 
 func (e *env) tipHandle(v int, id uint64, approve bool) bool {
@@ -733,23 +808,58 @@ var _ = os.Exit
 
 // ---------------------------------------------------------------- list-valued fields: repetitions, overlaps, empty
 // Every list the monitor puts into a message or a proposal goes through one of these.
-func (e *env) perturbInts(xs []int) []int {
-	r := e.r
-	switch r.Intn(10) {
-	case 0:
-		if len(xs) > 0 {
-			return append(append([]int{}, xs...), xs[r.Intn(len(xs))]) // one element twice
-		}
+// listVariant returns variant k of a list: 0 unchanged, 1 an EXISTING entry repeated (appended), 2 the first entry repeated
+// in place, 3 a NEW entry added, 4 the new entry added twice, 5 empty, 6 permuted (reversed), 7 one entry removed,
+// 8 the whole list twice
+const nListVariants = 9
+
+func listVariant[T any](xs []T, k int, pick int, fresh func() (T, bool)) []T {
+	out := append([]T{}, xs...)
+	switch k {
 	case 1:
-		return append(append([]int{}, xs...), xs...) // the whole list twice
-	case 2:
-		return []int{}
-	case 3:
 		if len(xs) > 0 {
-			return []int{xs[0], xs[0], xs[0]}
+			out = append(out, xs[pick%len(xs)])
 		}
+	case 2:
+		if len(xs) > 0 {
+			out = append([]T{xs[0]}, out...)
+		}
+	case 3, 4:
+		if fresh != nil {
+			if f, ok := fresh(); ok {
+				out = append(out, f)
+				if k == 4 {
+					out = append(out, f)
+				}
+			}
+		}
+	case 5:
+		out = []T{}
+	case 6:
+		for i, j := 0, len(out)-1; i < j; i, j = i+1, j-1 {
+			out[i], out[j] = out[j], out[i]
+		}
+	case 7:
+		if len(xs) > 0 {
+			i := pick % len(xs)
+			out = append(append([]T{}, xs[:i]...), xs[i+1:]...)
+		}
+	case 8:
+		out = append(out, xs...)
 	}
-	return xs
+	return out
+}
+
+// a random variant: mostly unchanged
+func perturbList[T any](r *hx.Rng, xs []T, fresh func() (T, bool)) []T {
+	if r.Chance(55) {
+		return xs
+	}
+	return listVariant(xs, 1+r.Intn(nListVariants-1), r.Intn(8), fresh)
+}
+
+func (e *env) perturbInts(xs []int) []int {
+	return perturbList(e.r, xs, func() (int, bool) { return 5, true }) // a5: usually not on the list
 }
 func (e *env) perturbIDs(xs []uint64) []uint64 {
 	var is []int
